@@ -1,7 +1,9 @@
 // ThreadSanitizer stress for C19: T threads, each running a seeded mix of SaveObject/LoadObject (four
 // archives, memory and stream), Convert::To (numbers, enums, chrono, UTF) and validation-failing loads on
-// THREAD-LOCAL data plus shared read-only inputs; every result is compared with the sequential golden
-// result of the same operation. Usage: tsan_stress <threads> <iters> <seed>   -> prints "ok <ops>" or "mismatch …"
+// THREAD-LOCAL data plus shared read-only inputs (literal documents and one const source object with a member of every supported
+// kind); the concurrent run comes first (cold start: lazily initialised state is initialised by racing threads), every result is then
+// compared with the sequential result of the same operation; finally a trivially-copyable source object is saved from a READ-ONLY
+// page (a save that writes into its source is a crash). Usage: tsan_stress <threads> <iters> <seed>   -> prints "ok <ops>" or "mismatch …"
 // (data races are reported by TSan on stderr and make the exit code 66)
 #include <thread>
 #include <bitset>
@@ -25,6 +27,19 @@
 #include "bitserializer/types/std/pair.h"
 #include "bitserializer/types/std/chrono.h"
 #include "bitserializer/types/std/bitset.h"
+#include "bitserializer/types/std/array.h"
+#include "bitserializer/types/std/set.h"
+#include "bitserializer/types/std/deque.h"
+#include "bitserializer/types/std/list.h"
+#include "bitserializer/types/std/forward_list.h"
+#include "bitserializer/types/std/tuple.h"
+#include "bitserializer/types/std/unordered_map.h"
+#include "bitserializer/types/std/memory.h"
+#include "bitserializer/types/std/atomic.h"
+#include "bitserializer/types/std/ctime.h"
+#include <cstddef>
+#include <cstring>
+#include <sys/mman.h>
 
 using namespace BitSerializer;
 
@@ -64,14 +79,81 @@ struct Wide {
 // a CONST source object shared by all threads (property: "sharing only constants ... const source objects")
 struct SharedSrc {
 	std::bitset<70> bits; std::vector<bool> flags; std::string text; std::vector<int> nums; std::optional<int> opt;
+	// every kind of member a source object can have: saving must only READ them (they are shared between the threads)
+	std::byte oneByte{}; std::array<std::byte, 3> bytes3{}; std::vector<std::byte> byteVec; unsigned char uc = 0; signed char sc = 0; bool flag = false;
+	int16_t i16 = 0; uint64_t u64 = 0; int64_t i64 = 0; float f = 0; double d = 0; Color color = Color::Red; std::nullptr_t nil = nullptr;
+	std::u16string s16; std::u32string s32; std::wstring ws; std::pair<int, std::string> pr; std::tuple<int, std::string, double> tup;
+	std::map<int, std::string> mapIS; std::unordered_map<std::string, int> umap; std::multimap<int, int> mmap; std::set<std::string> setS;
+	std::deque<double> dq; std::list<int> lst; std::forward_list<int> fl; std::array<int, 3> arr3{}; Inner inner; std::vector<Inner> inners;
+	std::chrono::seconds dur{0}; std::chrono::time_point<std::chrono::system_clock, std::chrono::milliseconds> tp{};
+	std::unique_ptr<int> up; std::shared_ptr<std::string> sp; std::optional<Inner> optInner; int cArr[3] = { 0, 0, 0 };
 	template <class TArchive> void Serialize(TArchive& archive) {
 		archive << KeyValue("bits", bits) << KeyValue("flags", flags) << KeyValue("text", text) << KeyValue("nums", nums) << KeyValue("opt", opt);
+		archive << KeyValue("oneByte", oneByte) << KeyValue("bytes3", bytes3) << KeyValue("byteVec", byteVec) << KeyValue("uc", uc) << KeyValue("sc", sc) << KeyValue("flag", flag)
+			<< KeyValue("i16", i16) << KeyValue("u64", u64) << KeyValue("i64", i64) << KeyValue("f", f) << KeyValue("d", d) << KeyValue("color", color) << KeyValue("nil", nil)
+			<< KeyValue("s16", s16) << KeyValue("s32", s32) << KeyValue("ws", ws) << KeyValue("pr", pr) << KeyValue("tup", tup)
+			<< KeyValue("mapIS", mapIS) << KeyValue("umap", umap) << KeyValue("mmap", mmap) << KeyValue("setS", setS)
+			<< KeyValue("dq", dq) << KeyValue("lst", lst) << KeyValue("fl", fl) << KeyValue("arr3", arr3) << KeyValue("inner", inner) << KeyValue("inners", inners)
+			<< KeyValue("dur", dur) << KeyValue("tp", tp) << KeyValue("up", up) << KeyValue("sp", sp) << KeyValue("optInner", optInner) << KeyValue("cArr", cArr);
 	}
 };
+static SharedSrc makeSharedSrc() {
+	SharedSrc v; v.bits = std::bitset<70>(0x5A5A5A5A5A5A5A5AULL); v.bits.set(69); v.flags = { true, false, true, true };
+	v.text = "shared const text"; v.nums = { 1, 2, 3, 70000 }; v.opt = 5;
+	v.oneByte = std::byte{0xA5}; v.bytes3 = { std::byte{1}, std::byte{0x80}, std::byte{0xFF} }; v.byteVec = { std::byte{7}, std::byte{0xC8} }; v.uc = 200; v.sc = -100; v.flag = true;
+	v.i16 = -12345; v.u64 = 0xFFFFFFFFFFFFFFFFULL; v.i64 = -5000000000LL; v.f = 1.5f; v.d = -0.1; v.color = Color::Blue;
+	v.s16 = u"шестнадцать"; v.s32 = U"thirty-two \U0001F600"; v.ws = L"wide"; v.pr = { 7, "seven" }; v.tup = { 1, "two", 3.25 };
+	v.mapIS = { {1, "one"}, {-2, "minus two"} }; v.umap = { {"k", 1} }; v.mmap = { {1, 10}, {1, 11}, {2, 20} }; v.setS = { "a", "b" };
+	v.dq = { 0.5, 1e100 }; v.lst = { 3, 2, 1 }; v.fl = { 9, 8 }; v.arr3 = { 4, 5, 6 }; v.inner = { 42, "inner", Color::Green }; v.inners = { {1, "x", Color::Red}, {2, "y", Color::Blue} };
+	v.dur = std::chrono::seconds(86399); v.tp = decltype(v.tp)(std::chrono::milliseconds(1700000000123LL));
+	v.up = std::make_unique<int>(77); v.sp = std::make_shared<std::string>("shared ptr"); v.optInner = Inner{ 5, "opt", Color::Red }; v.cArr[0] = 11; v.cArr[1] = 12; v.cArr[2] = 13;
+	return v;
+}
 static const SharedSrc& sharedSrc() {
-	static const SharedSrc s = [] { SharedSrc v; v.bits = std::bitset<70>(0x5A5A5A5A5A5A5A5AULL); v.bits.set(69); v.flags = { true, false, true, true };
-		v.text = "shared const text"; v.nums = { 1, 2, 3, 70000 }; v.opt = 5; return v; }();
+	static const SharedSrc s = makeSharedSrc();
 	return s;
+}
+
+// a trivially-copyable source object that is placed in a READ-ONLY page: a save that writes into its source dies with SIGSEGV
+struct RoPod {
+	std::byte b{}; unsigned char uc = 0; signed char sc = 0; bool flag = false; int16_t i16 = 0; uint16_t u16 = 0; int32_t i32 = 0; uint32_t u32 = 0; int64_t i64 = 0; uint64_t u64 = 0;
+	float f = 0; double d = 0; Color color = Color::Red; std::nullptr_t nil = nullptr; std::array<std::byte, 4> bytes{}; std::array<int, 3> arr{}; int cArr[2] = { 0, 0 };
+	std::chrono::seconds dur{0}; std::chrono::time_point<std::chrono::system_clock, std::chrono::seconds> tp{}; std::bitset<9> bits; std::optional<int> opt; std::pair<int, double> pr{};
+	std::tuple<int, float> tup{};
+	template <class TArchive> void Serialize(TArchive& archive) {
+		archive << KeyValue("b", b) << KeyValue("uc", uc) << KeyValue("sc", sc) << KeyValue("flag", flag) << KeyValue("i16", i16) << KeyValue("u16", u16) << KeyValue("i32", i32)
+			<< KeyValue("u32", u32) << KeyValue("i64", i64) << KeyValue("u64", u64) << KeyValue("f", f) << KeyValue("d", d) << KeyValue("color", color) << KeyValue("nil", nil)
+			<< KeyValue("bytes", bytes) << KeyValue("arr", arr) << KeyValue("cArr", cArr) << KeyValue("dur", dur) << KeyValue("tp", tp) << KeyValue("bits", bits)
+			<< KeyValue("opt", opt) << KeyValue("pr", pr) << KeyValue("tup", tup);
+	}
+};
+struct RoRow {      // CSV: flat rows of scalars
+	std::byte b{}; unsigned char uc = 0; int64_t i64 = 0; double d = 0; bool flag = false; Color color = Color::Red; std::chrono::seconds dur{0};
+	template <class TArchive> void Serialize(TArchive& archive) {
+		archive << KeyValue("b", b) << KeyValue("uc", uc) << KeyValue("i64", i64) << KeyValue("d", d) << KeyValue("flag", flag) << KeyValue("color", color) << KeyValue("dur", dur);
+	}
+};
+static std::string saveFromReadOnlyMemory() {
+	static_assert(std::is_trivially_destructible_v<RoPod> && std::is_trivially_destructible_v<RoRow>);
+	const size_t page = 4096, len = ((sizeof(RoPod) + sizeof(std::array<RoRow, 2>) + 64) / page + 1) * page;
+	void* mem = mmap(nullptr, len, PROT_READ | PROT_WRITE, MAP_PRIVATE | MAP_ANONYMOUS, -1, 0);
+	if (mem == MAP_FAILED) return "mmap-failed";
+	auto* pod = new (mem) RoPod();
+	pod->b = std::byte{0xA5}; pod->uc = 200; pod->sc = -100; pod->flag = true; pod->i16 = -12345; pod->u16 = 54321; pod->i32 = -7; pod->u32 = 4000000000u; pod->i64 = -5000000000LL;
+	pod->u64 = 0xFFFFFFFFFFFFFFFFULL; pod->f = 1.5f; pod->d = -0.1; pod->color = Color::Blue; pod->bytes = { std::byte{1}, std::byte{2}, std::byte{0x80}, std::byte{0xFF} };
+	pod->arr = { 4, 5, 6 }; pod->cArr[0] = 11; pod->cArr[1] = 12; pod->dur = std::chrono::seconds(86399); pod->tp = decltype(pod->tp)(std::chrono::seconds(1700000000));
+	pod->bits = std::bitset<9>(0x155); pod->opt = 5; pod->pr = { 7, 0.5 }; pod->tup = { 1, 2.5f };
+	auto* rows = new (static_cast<char*>(mem) + ((sizeof(RoPod) + 63) / 64) * 64) std::array<RoRow, 2>();
+	(*rows)[0] = { std::byte{9}, 255, -1, 2.5, true, Color::Green, std::chrono::seconds(5) }; (*rows)[1] = { std::byte{0}, 0, 1LL << 40, -0.0, false, Color::Red, std::chrono::seconds(-5) };
+	if (mprotect(mem, len, PROT_READ) != 0) return "mprotect-failed";
+	const RoPod& cp = *pod; const std::array<RoRow, 2>& cr = *rows;
+	std::string out = SaveObject<MsgPack::MsgPackArchive>(cp) + "|" + SaveObject<Json::RapidJson::JsonArchive>(cp) + "|" + SaveObject<Xml::PugiXml::XmlArchive>(cp) + "|" + SaveObject<Csv::CsvArchive>(cr);
+	{ std::ostringstream os; SaveObject<MsgPack::MsgPackArchive>(cp, os); out += "|" + os.str(); }
+	{ std::ostringstream os; SaveObject<Json::RapidJson::JsonArchive>(cp, os); out += "|" + os.str(); }
+	{ std::ostringstream os; SaveObject<Xml::PugiXml::XmlArchive>(cp, os); out += "|" + os.str(); }
+	{ std::ostringstream os; SaveObject<Csv::CsvArchive>(cr, os); out += "|" + os.str(); }
+	munmap(mem, len);
+	return std::to_string(out.size());
 }
 
 static std::string runOp(unsigned kind, unsigned k, const std::string& sharedMp, const std::string& sharedJson) {
@@ -117,17 +199,26 @@ static std::string runOp(unsigned kind, unsigned k, const std::string& sharedMp,
 	return "?";
 }
 
+// shared read-only inputs are LITERAL documents (nothing of the library runs before the threads start, so state that is initialised
+// lazily on first use is initialised by racing threads); MsgPack document = SaveObject(makeOuter(7)) of the pinned tree
+static const char kSharedJson[] = R"JSON({"id":7,"name":"né€","nums":[1,7,-3],"inner":{"a":-7,"s":"s7","c":"Green"},"m":{"k1":1,"k2":7},"opt":7,"p":{"key":"pk","value":7},"dur":"PT4M19S"})JSON";
+static const unsigned char kSharedMp[] = { 136,162,105,100,7,164,110,97,109,101,166,110,195,169,226,130,172,164,110,117,109,115,147,1,7,253,165,105,110,110,101,114,131,161,97,249,161,115,162,115,55,161,99,165,71,114,101,101,110,161,109,130,162,107,49,1,162,107,50,7,163,111,112,116,7,161,112,130,163,107,101,121,162,112,107,165,118,97,108,117,101,7,163,100,117,114,214,255,0,0,1,3 };
+
 int main(int argc, char** argv) {
 	const unsigned threads = argc > 1 ? std::stoul(argv[1]) : 8, iters = argc > 2 ? std::stoul(argv[2]) : 500, seed = argc > 3 ? std::stoul(argv[3]) : 1;
-	const std::string sharedMp = SaveObject<MsgPack::MsgPackArchive>(makeOuter(7));      // shared read-only inputs
-	const std::string sharedJson = SaveObject<Json::RapidJson::JsonArchive>(makeOuter(7));
-	// sequential goldens
+	if (argc > 4 && std::string(argv[4]) == "dump") {       // maintenance: prints the literal documents above
+		std::cout << SaveObject<Json::RapidJson::JsonArchive>(makeOuter(7)) << "\n";
+		for (unsigned char c : SaveObject<MsgPack::MsgPackArchive>(makeOuter(7))) std::cout << static_cast<unsigned>(c) << ",";
+		std::cout << "\n"; return 0;
+	}
+	const std::string sharedMp(reinterpret_cast<const char*>(kSharedMp), sizeof(kSharedMp));
+	const std::string sharedJson(kSharedJson);
 	std::vector<std::vector<std::pair<unsigned, unsigned>>> plan(threads);
 	std::vector<std::vector<std::string>> golden(threads), actual(threads);
 	std::mt19937 rng(seed);
 	for (unsigned t = 0; t < threads; ++t)
 		for (unsigned i = 0; i < iters; ++i) { plan[t].push_back({ static_cast<unsigned>(rng()), static_cast<unsigned>(rng() % 100000) }); }
-	for (unsigned t = 0; t < threads; ++t) for (auto& [kind, k] : plan[t]) golden[t].push_back(runOp(kind, k, sharedMp, sharedJson));
+	// the concurrent run comes FIRST (cold start), the sequential golden run afterwards
 	std::atomic<bool> go{false};
 	std::vector<std::thread> pool;
 	for (unsigned t = 0; t < threads; ++t) {
@@ -138,10 +229,14 @@ int main(int argc, char** argv) {
 	}
 	go = true;
 	for (auto& th : pool) th.join();
+	for (unsigned t = 0; t < threads; ++t) for (auto& [kind, k] : plan[t]) golden[t].push_back(runOp(kind, k, sharedMp, sharedJson));
 	size_t ops = 0;
 	for (unsigned t = 0; t < threads; ++t)
 		for (size_t i = 0; i < golden[t].size(); ++i, ++ops)
 			if (golden[t][i] != actual[t][i]) { std::cout << "mismatch thread=" << t << " op=" << i << " kind=" << plan[t][i].first % 18 << "\n"; return 1; }
+	// saving from a source object in read-only memory (a write into the source is a crash here, and a race when the source is shared)
+	const std::string ro = saveFromReadOnlyMemory();
+	if (ro.find("failed") != std::string::npos) { std::cout << "readonly-setup " << ro << "\n"; return 1; }
 	std::cout << "ok " << ops << "\n";
 	return 0;
 }
